@@ -13,6 +13,7 @@
 package c12
 
 import (
+	"encoding/gob"
 	"encoding/json"
 	"fmt"
 	"os"
@@ -649,6 +650,20 @@ func decodeOp(t *core.Tape, task int) (*op, *op) {
 		rt := reflect.TypeOf(val)
 		if rt.Kind() == reflect.Pointer {
 			rt = rt.Elem()
+		}
+		if ge, ok := val.(gob.GobEncoder); ok && t.Bool(1, 2) {
+			// the type's own gob pair
+			data, _ = ge.GobEncode()
+			data = gobcanon.Canon(data)
+			name = rt.Name() + ".GobDecode"
+			dec = func(b []byte) (any, error) {
+				p := reflect.New(rt)
+				if u, ok := p.Interface().(gob.GobDecoder); ok {
+					return p.Interface(), u.GobDecode(b)
+				}
+				return nil, nil
+			}
+			break
 		}
 		name = rt.Name() + ".UnmarshalJSON"
 		dec = func(b []byte) (any, error) {
